@@ -86,7 +86,13 @@ where
     F: Float,
 {
     let this_in = !event.is_in_out();
-    let that_in = !event.is_other_in_out();
+    // For coincident edges the state of the other polygon above the edge is determined
+    // by the coinciding twin, not by what lies below the pair.
+    let that_in = match event.get_edge_type() {
+        EdgeType::SameTransition => this_in,
+        EdgeType::DifferentTransition => !this_in,
+        _ => !event.is_other_in_out(),
+    };
     let is_in = match operation {
         Operation::Intersection => this_in && that_in,
         Operation::Union => this_in || that_in,
